@@ -130,7 +130,7 @@ void flag(int prop, const char* pred, const Edge& e, const char* fmt, ...) {
 	if (ps) ++ps->count;
 	if (g_replaying) ++g_replay_flags;
 	if (ps && ps->count > 2 && !g_replaying) return;
-	char msg[512]; va_list ap; va_start(ap, fmt); vsnprintf(msg, sizeof msg, fmt, ap); va_end(ap);
+	char msg[KEYMAX]; va_list ap; va_start(ap, fmt); vsnprintf(msg, sizeof msg, fmt, ap); va_end(ap);
 	Text rp, tx;
 	DevVec dv; dv.n = e.ndev; for (int i = 0; i < e.ndev; ++i) { dv.pos[i] = e.dev_pos[i]; dv.alt[i] = e.dev_alt[i]; }
 	path_string(rp, e.pre_idx, &e.op, &dv);
@@ -167,6 +167,9 @@ static void build_menus() {
 		if (opt.mf & MF_PHASE_REQ) for (int k_i = 0, k = g_ids[0]; k_i < g_nids; ++k_i, k = g_ids[k_i < g_nids ? k_i : 0]) f.push(Act{A_CHANGE, static_cast<uint8_t>(k), 0, 0});
 #if VX_PAYLOAD
 		if ((opt.mf & MF_PHASE_REQ) && (opt.mf & MF_PAYLOAD)) for (int k_i = 0, k = g_ids[0]; k_i < g_nids; ++k_i, k = g_ids[k_i < g_nids ? k_i : 0]) { f.push(Act{A_CHANGEW, static_cast<uint8_t>(k), 0, 1}); if (opt.mf & MF_PAYLOAD2) f.push(Act{A_CHANGEW, static_cast<uint8_t>(k), 0, 2}); }
+#endif
+#if VX_PAYLOAD
+		if ((opt.mf & MF_COMPOSITE) && (opt.mf & MF_PHASE_REQ) && (opt.mf & MF_PAYLOAD)) for (int k_i = 0, k = g_ids[0]; k_i < g_nids; ++k_i, k = g_ids[k_i < g_nids ? k_i : 0]) f.push(Act{A_CHANGEW_ALIAS, static_cast<uint8_t>(k), 0, 0});
 #endif
 #if VX_LOG
 		if (opt.mf & MF_LOG_TOGGLE) { f.push(Act{A_LOG_ON, 0, 0, 0}); f.push(Act{A_LOG_OFF, 0, 0, 0}); }
@@ -208,7 +211,7 @@ static void build_ops() {
 		add(OP_REACT, 1);
 #endif
 	}
-	if (opt.og & OG_QUERY) add(OP_QUERY);
+	if (opt.og & OG_QUERY) { add(OP_QUERY); add(OP_QUERY, 1); }
 #if VX_PAYLOAD
 	if (opt.og & OG_PAYLOAD) for (int k_i = 0, k = g_ids[0]; k_i < g_nids; ++k_i, k = g_ids[k_i < g_nids ? k_i : 0]) { add(OP_CHANGEW, k, 1); add(OP_IMMW, k, 1); if (opt.og & OG_PAYLOAD2) { for (int tg = 2; tg <= 4; ++tg) { add(OP_CHANGEW, k, tg); add(OP_IMMW, k, tg); } } }
 #endif
@@ -264,12 +267,13 @@ static bool op_enabled(const Op& op, const Abs& pre) {
 	case OP_COPY: return true;
 	case OP_ATTACH: return true;
 	case OP_PLAN_REMOVE: return active && op.a < (1u << pre.planlen);
+	case OP_PLAN_CHANGE: case OP_PLAN_CHANGEW: case OP_PLAN_CLEAR: case OP_SUCCEED: case OP_FAIL: return active || VX_MANUAL;   // a manually activated machine can be given its plan and reports before enter()
 	default: return active;
 	}
 }
 
 // --------------------------------------------------------------------------- running one edge
-static uint8_t g_prekey[512], g_postkey[512];
+static uint8_t g_prekey[KEYMAX], g_postkey[KEYMAX];
 static Edge E;
 
 static void run_edge(long pre_idx, const Abs* pre, const Op& op, const DevVec& dv) {
@@ -311,7 +315,7 @@ static void companions(const Edge& e) {
 	if (!opt.companions_replica && !opt.companions_copy) return;
 	g_comp.prekey = g_prekey; g_comp.postkey = g_postkey; g_comp.keylen = KEYLEN; g_comp.copy_dev = opt.copy_dev;
 	g_comp.presnap = e.pre_idx >= 0 ? store.snap(e.pre_idx) : nullptr;
-	if (opt.companions_copy && (opt.props & ((1u << C17) | (1u << C01) | (1u << C02) | (1u << C07) | (1u << C11) | (1u << C18)))) companion_copy(e);
+	if (opt.companions_copy && (opt.props & ((1u << C17) | (1u << C01) | (1u << C02) | (1u << C06) | (1u << C07) | (1u << C11) | (1u << C16) | (1u << C18)))) companion_copy(e);
 	if (opt.companions_replica && (opt.props & ((1u << C11) | (1u << C18)))) companion_replica(e);
 }
 
@@ -557,7 +561,7 @@ static int explore_main() {
 	prepare_extras();
 	{ // key length and store
 		G.mode = DM_QUIET; uint16_t none = 0; G.begin(0, &none, &none);
-		construct(2, 0x00, false); uint8_t tmp[512]; KEYLEN = make_key(*inst(2), tmp); if (KEYLEN > sizeof g_prekey) die("key too long");
+		construct(2, 0x00, false); uint8_t tmp[KEYMAX]; KEYLEN = make_key(*inst(2), tmp); if (KEYLEN > sizeof g_prekey) die("key too long");
 #if !VX_MANUAL
 		G.cur = inst(2); inst(2)->~Inst();
 #endif
@@ -633,7 +637,7 @@ static int explore_main() {
 	// fresh-instance re-derivation of every state from its witness history, in differently pre-filled storage
 	unsigned long rederived = 0, rederive_bad = 0;
 	if (opt.verify_fresh && !capped) {
-		uint8_t k2[512];
+		uint8_t k2[KEYMAX];
 		for (size_t i = 0; i < store.count; ++i) {
 			if ((i & 1023) == 0 && now() - t_start > opt.deadline) { capped = true; cap_reason = "deadline reached during re-derivation"; break; }
 			const uint8_t pf = static_cast<uint8_t>(opt.prefill == 0x00 ? 0xFF : 0x00);
@@ -733,7 +737,7 @@ static int replay_main() {
 	p += 5;
 	opt.prefill = static_cast<uint8_t>(pf); opt.mf = mf; opt.og = og;
 	build_menus(); build_ops(); prepare_extras();
-	{ G.mode = DM_QUIET; uint16_t none = 0; G.begin(0, &none, &none); construct(2, 0, false); uint8_t tmp[512]; KEYLEN = make_key(*inst(2), tmp); }
+	{ G.mode = DM_QUIET; uint16_t none = 0; G.begin(0, &none, &none); construct(2, 0, false); uint8_t tmp[KEYMAX]; KEYLEN = make_key(*inst(2), tmp); }
 	store.init(KEYLEN, INST_SIZE);
 	g_replaying = true;
 	long pre_idx = -1; Abs pre; int step = 0;
